@@ -3,19 +3,36 @@
 (* Transparent compression (C13, proc/redis/filter_compress.go).  Values   *)
 (* are abstracted to classes by how the value compression behaves on them; *)
 (* what matters is how many times the stored bytes have been compressed    *)
-(* (`layers`) and how many decompression steps a read applies.             *)
+(* (`layers`), whether the bytes that reach the backend are still the      *)
+(* bytes the filter produced (`ok`), and how many decompression steps a    *)
+(* read applies to each value of its reply.                                *)
 (*   - the filter chain runs once per SEND of a request, i.e. again on      *)
-(*     every resend after a MOVED / ASK redirection (upstream.go:624-628);  *)
+(*     every resend after a MOVED / ASK redirection (upstream.go);          *)
 (*   - every pass with a compression config present registers one           *)
-(*     decompress hook on the request; every hook strips one layer;         *)
-(*   - a pass with compression enabled compresses each value position once  *)
-(*     if the value is at least `threshold` bytes and gets strictly shorter.*)
-(* FixOnce = the repaired filter: a request is compressed, and gets its     *)
-(* decompress hook, only on its first pass.                                 *)
+(*     decompress hook on the request; every hook strips one layer of every *)
+(*     value of the reply it reaches: the reply is a bulk (depth 0), a flat *)
+(*     array (depth 1: MGET / HMGET / HGETALL / HVALS) or an array that     *)
+(*     nests arrays (depth 2: HSCAN answers [cursor, [field, value, ..]]);  *)
+(*   - a pass with compression enabled compresses EVERY value position of   *)
+(*     the request once (HMSET / HSET carry several) if the value is at     *)
+(*     least `threshold` bytes and gets strictly shorter;                   *)
+(*   - the value compression works in a scratch buffer that is shared by    *)
+(*     all compressions and decompressions of the process (bufferPool): the *)
+(*     scratch is rewritten by the compression of the next value position   *)
+(*     of the same request and by any other traffic that passes between the *)
+(*     filter pass and the (re)encoding of the request - certainly between  *)
+(*     the sends of a redirected write, and under concurrency at any time.  *)
+(* FixOnce  = the repaired filter: a request is compressed, and gets its    *)
+(*            decompress hook, only on its first pass.                      *)
+(* HookDepth = nesting depth down to which a decompress hook descends; the  *)
+(*            filter recurses into arrays, i.e. HookDepth = MaxDepth.       *)
+(* OwnBytes = TRUE: the compressed bytes are copied into memory owned by    *)
+(*            the request before the scratch buffer is given back; FALSE:   *)
+(*            the request keeps pointing into the scratch buffer.           *)
 (***************************************************************************)
 EXTENDS Naturals, Sequences, FiniteSets, TLC
 
-CONSTANTS Keys, MaxOps, MaxRedirects, FixOnce
+CONSTANTS Keys, MaxOps, MaxRedirects, FixOnce, MaxVals, HookDepth, OwnBytes
 
 \* value classes (relative to the configured threshold)
 \*  small  : shorter than the threshold                       -> never compressed
@@ -26,18 +43,25 @@ Classes == {"small", "comp1", "comp2", "incomp"}
 
 Configs == {"absent", "disabled", "enabled"}
 
+MaxDepth == 2
+Depths == 0..MaxDepth
+
+\* the value positions of one write request
+ValSeqs == UNION {[1..n -> Classes] : n \in 1..MaxVals}
+
 VARIABLES cfg,        \* current compression config of the service
           everEnabled,
-          stored,     \* stored[k]: [cls, layers] or <<>> if never written
-          lastRead,   \* result of the last read: number of layers left on the value handed to the client (0 = original)
+          stored,     \* stored[k]: sequence of [cls, layers, ok] (one per value position) or <<>> if never written
+          lastRead,   \* result of the last read: largest number of layers left on a value handed to the client (0 = original)
+          lastReadOk, \* ... and whether every value handed to the client stems from the bytes the filter produced
           lastReadCfg,\* config that was in force at that read
           ops
 
-vars == <<cfg, everEnabled, stored, lastRead, lastReadCfg, ops>>
+vars == <<cfg, everEnabled, stored, lastRead, lastReadOk, lastReadCfg, ops>>
 
 Init ==
   /\ cfg \in Configs /\ everEnabled = (cfg = "enabled")
-  /\ stored = [k \in Keys |-> <<>>] /\ lastRead = 0 /\ lastReadCfg = "absent" /\ ops = 0
+  /\ stored = [k \in Keys |-> <<>>] /\ lastRead = 0 /\ lastReadOk = TRUE /\ lastReadCfg = "absent" /\ ops = 0
 
 \* one compression pass over a value of class cls that already has l layers
 Pass(cls, l) ==
@@ -52,36 +76,54 @@ Passes(cls, l, n) == IF n = 0 THEN l ELSE Passes(cls, Pass(cls, l), n - 1)
 SetConfig(c) ==
   /\ c # cfg /\ ops < MaxOps /\ ops' = ops + 1
   /\ cfg' = c /\ everEnabled' = (everEnabled \/ c = "enabled")
-  /\ UNCHANGED <<stored, lastRead, lastReadCfg>>
+  /\ UNCHANGED <<stored, lastRead, lastReadOk, lastReadCfg>>
 
-\* a write whose request is sent 1 + r times (r redirections)
-Write(k, cls, r) ==
+\* a write request with the value positions vals whose request is sent 1 + r times (r redirections);
+\* busy = other values are compressed / decompressed by the proxy while this request is on its way
+Write(k, vals, r, busy) ==
   /\ ops < MaxOps /\ ops' = ops + 1
   /\ LET n == IF cfg = "enabled" THEN (IF FixOnce THEN 1 ELSE 1 + r) ELSE 0
-     IN stored' = [stored EXCEPT ![k] = [cls |-> cls, layers |-> Passes(cls, 0, n)]]
-  /\ UNCHANGED <<cfg, everEnabled, lastRead, lastReadCfg>>
+         layersOf(i) == Passes(vals[i], 0, n)
+         \* the value compression is entered (and the scratch buffer taken) for every value of at least threshold bytes
+         taken(j) == n > 0 /\ vals[j] # "small"
+         \* the compressed bytes of position i are gone when the scratch buffer was rewritten before the request is encoded
+         lost(i) == /\ ~OwnBytes /\ layersOf(i) > 0
+                    /\ \/ \E j \in (i + 1)..Len(vals) : taken(j)
+                       \/ busy
+     IN stored' = [stored EXCEPT ![k] = [i \in 1..Len(vals) |-> [cls |-> vals[i], layers |-> layersOf(i), ok |-> ~lost(i)]]]
+  /\ UNCHANGED <<cfg, everEnabled, lastRead, lastReadOk, lastReadCfg>>
 
-\* a read whose request is sent 1 + r times: one decompress hook per pass while a config is present
-Read(k, r) ==
+Max(S) == CHOOSE x \in S : \A y \in S : y <= x
+
+\* a read whose request is sent 1 + r times and whose reply carries the values at nesting depth d:
+\* one decompress hook per pass while a config is present, each reaching down to HookDepth
+Read(k, r, d) ==
   /\ stored[k] # <<>> /\ ops < MaxOps /\ ops' = ops + 1
-  /\ LET hooks == IF cfg = "absent" THEN 0 ELSE (IF FixOnce THEN 1 ELSE 1 + r)
-         l == stored[k].layers
-     IN lastRead' = IF hooks >= l THEN 0 ELSE l - hooks
+  /\ LET hooks == IF cfg = "absent" \/ d > HookDepth THEN 0 ELSE (IF FixOnce THEN 1 ELSE 1 + r)
+         left(i) == IF hooks >= stored[k][i].layers THEN 0 ELSE stored[k][i].layers - hooks
+     IN /\ lastRead' = Max({left(i) : i \in 1..Len(stored[k])})
+        /\ lastReadOk' = \A i \in 1..Len(stored[k]) : stored[k][i].ok
   /\ lastReadCfg' = cfg
   /\ UNCHANGED <<cfg, everEnabled, stored>>
 
 Next ==
   \/ \E c \in Configs : SetConfig(c)
-  \/ \E k \in Keys, cls \in Classes, r \in 0..MaxRedirects : Write(k, cls, r)
-  \/ \E k \in Keys, r \in 0..MaxRedirects : Read(k, r)
+  \/ \E k \in Keys, vals \in ValSeqs, r \in 0..MaxRedirects, busy \in BOOLEAN : Write(k, vals, r, busy)
+  \/ \E k \in Keys, r \in 0..MaxRedirects, d \in Depths : Read(k, r, d)
 
 Spec == Init /\ [][Next]_vars
 
 -----------------------------------------------------------------------------
 \* what reaches the backend is the original or ONE compression of it (header + stream that expands to the original)
-StoredForm == \A k \in Keys : stored[k] # <<>> => stored[k].layers <= 1
+StoredForm == \A k \in Keys : \A i \in 1..Len(stored[k]) : stored[k][i].layers <= 1 /\ stored[k][i].ok
 \* a value read back through the proxy is the original, as long as a compression config (enabled or switched off) is present
-ReadBack == lastReadCfg # "absent" => lastRead = 0
+ReadBack == lastReadCfg # "absent" => lastRead = 0 /\ lastReadOk
 \* nothing is ever compressed while compression is not enabled
-OnlyWhenEnabled == ~everEnabled => \A k \in Keys : stored[k] # <<>> => stored[k].layers = 0
+OnlyWhenEnabled == ~everEnabled => \A k \in Keys : \A i \in 1..Len(stored[k]) : stored[k][i].layers = 0
+
+\* windows that must be reachable (checked as invariants that TLC must violate)
+NoNestedReadOfCompressed ==   \* a value stored compressed is read back inside a nested array while a config is present
+  ~(\E k \in Keys : ops < MaxOps /\ cfg # "absent" /\ \E i \in 1..Len(stored[k]) : stored[k][i].layers > 0)
+NoTwoCompressedInOneRequest ==
+  ~(\E k \in Keys : Cardinality({i \in 1..Len(stored[k]) : stored[k][i].layers > 0}) >= 2)
 =============================================================================
